@@ -101,6 +101,7 @@ type NilVal struct{}
 type SliceVal struct {
 	Len   *sym.Term
 	Cells map[string]*sym.Term
+	Tag   string // symbolic lists read from a configuration: unknown cells are cell(tag, k)
 }
 
 // ArrVal is a fixed array of scalar temporaries (t [3]Scalar).
@@ -159,6 +160,8 @@ type Path struct {
 	Recv   *Loc
 	Params []Value
 	Locs   []*Loc
+	// RecvObj: the receiver object of this path (struct mode; a fresh copy per path when RecvFresh is set)
+	RecvObj *StructVal
 }
 
 func (p *Path) CondString() string {
@@ -193,6 +196,16 @@ type Config struct {
 	// KernelMode: container elements are locations cached by (container, index); writes to elements inside
 	// counted loops are recorded as kernel facts "element idx of container := value" when the loop closes.
 	KernelMode bool
+	// Decl resolves library functions/methods to their declarations (struct mode: object methods and constructors are inlined).
+	Decl DeclFinder
+	// RecvStruct: the receiver of the analysed method is this object (struct mode).
+	RecvStruct *StructVal
+	// IntSyms: symbols known to denote integers (trunc(s) = s).
+	IntSyms map[string]bool
+	// RecvFresh: every enumerated path starts from a deep copy of RecvStruct (methods may update scratch fields).
+	RecvFresh bool
+	// ParamNames: symbols for parameters are their source names instead of p0, p1, ... (struct mode constructors).
+	ParamNames bool
 }
 
 type Interp struct {
@@ -276,7 +289,14 @@ func (it *Interp) runOnce(fd *ast.FuncDecl) (p *Path, und *Undecided) {
 	var recv *Loc
 	if fd.Recv != nil && len(fd.Recv.List[0].Names) > 0 {
 		robj := it.info.Defs[fd.Recv.List[0].Names[0]]
-		if r := containerRank(robj.Type()); r > 0 && it.cfg.KernelMode {
+		if it.cfg.RecvStruct != nil {
+			if it.cfg.RecvFresh {
+				frame[robj] = DeepCopy(it.cfg.RecvStruct, nil)
+			} else {
+				frame[robj] = it.cfg.RecvStruct
+			}
+			it.path.RecvObj, _ = frame[robj].(*StructVal)
+		} else if r := containerRank(robj.Type()); r > 0 && it.cfg.KernelMode {
 			frame[robj] = &Container{Name: "r0", Sym: sym.Sym("r0"), Rank: r}
 		} else {
 			recv = it.newLoc("r0", sym.Sym("r0"))
@@ -289,6 +309,9 @@ func (it *Interp) runOnce(fd *ast.FuncDecl) (p *Path, und *Undecided) {
 		for _, n := range f.Names {
 			obj := it.info.Defs[n]
 			name := fmt.Sprintf("p%d", k)
+			if it.cfg.ParamNames {
+				name = n.Name
+			}
 			v := it.paramValue(obj.Type(), name, n.Pos())
 			for _, a := range it.cfg.Alias {
 				if a == k {
@@ -405,6 +428,12 @@ func (it *Interp) paramValue(t types.Type, name string, pos token.Pos) Value {
 	if _, ok := t.Underlying().(*types.Signature); ok {
 		return &FuncParam{Name: name, Sig: t.Underlying().(*types.Signature)}
 	}
+	if n := namedOf(t); n != nil && n.Obj().Name() == "ConfigDistribution" {
+		return &OpaqueVal{"config"}
+	}
+	if n := namedOf(t); n != nil && n.Obj().Name() == "ScalarType" {
+		return &OpaqueVal{"scalartype"}
+	}
 	return sym.Sym(name) // opaque
 }
 
@@ -439,7 +468,11 @@ func (it *Interp) setVar(o types.Object, v Value, define bool) {
 
 func (it *Interp) block(list []ast.Stmt) {
 	it.env = append(it.env, map[types.Object]Value{})
-	defer func() { it.env = it.env[:len(it.env)-1] }()
+	defer func() {
+		if len(it.env) > 0 {
+			it.env = it.env[:len(it.env)-1]
+		}
+	}()
 	for _, s := range list {
 		if it.done {
 			return
@@ -509,7 +542,11 @@ func (it *Interp) stmt(s ast.Stmt) {
 		it.assignTo(x.X, v, false)
 	case *ast.IfStmt:
 		it.env = append(it.env, map[types.Object]Value{})
-		defer func() { it.env = it.env[:len(it.env)-1] }()
+		defer func() {
+			if len(it.env) > 0 {
+				it.env = it.env[:len(it.env)-1]
+			}
+		}()
 		if x.Init != nil {
 			it.stmt(x.Init)
 		}
@@ -526,7 +563,11 @@ func (it *Interp) stmt(s ast.Stmt) {
 		}
 	case *ast.SwitchStmt:
 		it.env = append(it.env, map[types.Object]Value{})
-		defer func() { it.env = it.env[:len(it.env)-1] }()
+		defer func() {
+			if len(it.env) > 0 {
+				it.env = it.env[:len(it.env)-1]
+			}
+		}()
 		if x.Init != nil {
 			it.stmt(x.Init)
 		}
@@ -654,6 +695,22 @@ func (it *Interp) assignTo(lhs ast.Expr, v Value, define bool) {
 			return
 		}
 		it.undecided(lhs.Pos(), "assignment target %s", types.ExprString(lhs))
+	case *ast.SelectorExpr:
+		if sv, ok := it.eval(x.X).(*StructVal); ok {
+			it.setField(sv, x.Sel.Name, v, lhs.Pos())
+			return
+		}
+		it.undecided(lhs.Pos(), "assignment target %s", types.ExprString(lhs))
+	case *ast.StarExpr:
+		// *obj = *tmp : the object takes over the fields of the other
+		dst, ok1 := it.eval(x.X).(*StructVal)
+		src, ok2 := v.(*StructVal)
+		if ok1 && ok2 {
+			cp := copyStruct(src)
+			dst.Fields = cp.Fields
+			return
+		}
+		it.undecided(lhs.Pos(), "assignment target %s", types.ExprString(lhs))
 	default:
 		it.undecided(lhs.Pos(), "assignment target %s", types.ExprString(lhs))
 	}
@@ -746,6 +803,8 @@ func (it *Interp) eval(e ast.Expr) Value {
 		it.undecided(e.Pos(), "unbound identifier %s", x.Name)
 	case *ast.BasicLit:
 		it.undecided(e.Pos(), "literal %s", x.Value)
+	case *ast.CompositeLit:
+		return it.compositeLit(x)
 	case *ast.FuncLit:
 		envCopy := append([]map[types.Object]Value{}, it.env...)
 		return &Closure{Lit: x, Env: envCopy}
@@ -800,6 +859,9 @@ func (it *Interp) eval(e ast.Expr) Value {
 			if v, ok := sl.Cells[k]; ok {
 				return v
 			}
+			if sl.Tag != "" {
+				return sym.Fn("cell", sym.Sym(sl.Tag), it.evalTerm(x.Index))
+			}
 			return sym.Fn("cell", sym.Sym(k))
 		}
 		if a, ok := base.(*ArrVal); ok {
@@ -815,7 +877,11 @@ func (it *Interp) eval(e ast.Expr) Value {
 	case *ast.CallExpr:
 		return it.call(x)
 	case *ast.SelectorExpr:
-		if l, ok := it.eval(x.X).(*Loc); ok {
+		base := it.eval(x.X)
+		if sv, ok := base.(*StructVal); ok {
+			return it.field(sv, x.Sel.Name, x.Pos())
+		}
+		if l, ok := base.(*Loc); ok {
 			switch x.Sel.Name {
 			case "Order":
 				return sym.Fn("order", sym.Sym(l.Name))
@@ -852,6 +918,15 @@ func (it *Interp) compare(op token.Token, l, r Value, pos token.Pos) *BoolVal {
 	// nil comparisons
 	_, ln := l.(NilVal)
 	_, rn := r.(NilVal)
+	if lb, ok := l.(*BoolVal); ok {
+		if rb, ok := r.(*BoolVal); ok && lb.Known && rb.Known {
+			eq := lb.V == rb.V
+			if op == token.NEQ {
+				eq = !eq
+			}
+			return &BoolVal{Known: true, V: eq}
+		}
+	}
 	if ln || rn {
 		both := ln && rn
 		if op == token.EQL {
@@ -936,7 +1011,7 @@ func (it *Interp) compare(op token.Token, l, r Value, pos token.Pos) *BoolVal {
 var mathFn = map[string]string{
 	"math.Sin": "sin", "math.Cos": "cos", "math.Tan": "tan", "math.Sinh": "sinh", "math.Cosh": "cosh", "math.Tanh": "tanh",
 	"math.Exp": "exp", "math.Log": "log", "math.Log1p": "log1p", "math.Erf": "erf", "math.Erfc": "erfc", "math.Gamma": "gamma",
-	"math.Sqrt": "sqrt", "math.Pow": "pow", "math.Abs": "fabs",
+	"math.Sqrt": "sqrt", "math.Pow": "pow", "math.Abs": "fabs", "math.Floor": "floor", "math.Ceil": "ceil", "math.Round": "round", "math.Trunc": "trunc",
 	"special.LogErfc": "logerfc", "special.Digamma": "digamma", "special.Trigamma": "trigamma", "special.Mlgamma": "mlgamma",
 	"special.GammaP": "gammap", "special.GammaPfirstDerivative": "gammapd1", "special.GammaPsecondDerivative": "gammapd2",
 	"special.BesselI": "besseli", "special.LogBesselI": "logbesseli",
@@ -977,7 +1052,11 @@ func (it *Interp) call(call *ast.CallExpr) Value {
 		if b, ok := tv.Type.Underlying().(*types.Basic); ok && b.Info()&types.IsInteger != 0 {
 			if atv, ok := info.Types[call.Args[0]]; ok {
 				if ab, ok := atv.Type.Underlying().(*types.Basic); ok && ab.Info()&types.IsFloat != 0 {
-					return sym.Fn("trunc", it.toTerm(v, call.Pos()))
+					t := it.toTerm(v, call.Pos())
+					if it.cfg.IntSyms[t.String()] {
+						return t
+					}
+					return sym.Fn("trunc", t)
 				}
 			}
 		}
@@ -1131,6 +1210,22 @@ func (it *Interp) callFunc(fn *types.Func, call *ast.CallExpr) Value {
 			return it.newLoc("tmp", it.evalTerm(call.Args[0]))
 		}
 	}
+	if fn.Pkg() != nil && fn.Pkg().Path() == "github.com/pbenner/autodiff" && (fn.Name() == "NullDenseVector" || fn.Name() == "NullVector") && len(call.Args) == 2 {
+		return &LocalVec{Len: it.evalTerm(call.Args[1]), Cells: map[string]*Loc{}}
+	}
+	if fn.Name() == "NewConfigDistribution" && len(call.Args) >= 2 {
+		// the exported configuration: name and parameter list (nested distributions are not modelled)
+		return &StructVal{T: fn.Type().(*types.Signature).Results().At(0).Type(), Fields: map[string]Value{"Parameters": it.eval(call.Args[1])}}
+	}
+	switch full {
+	case "fmt.Errorf", "errors.New":
+		return &ErrVal{Msg: types.ExprString(call.Args[0])}
+	case "fmt.Sprintf", "fmt.Println", "fmt.Printf", "fmt.Fprintf":
+		return &OpaqueVal{"text"}
+	}
+	if v, ok := it.libraryFunc(fn, call); ok {
+		return v
+	}
 	it.undecided(call.Pos(), "call of %s", fn.FullName())
 	return nil
 }
@@ -1163,6 +1258,12 @@ func (it *Interp) callMethod(fn *types.Func, call *ast.CallExpr) Value {
 		it.undecided(pos, "iterator method %s", name)
 	case *Loc:
 		return it.scalarMethod(rv, name, fn, call)
+	case *StructVal:
+		return it.structMethod(rv, fn, call)
+	case *OpaqueVal:
+		return it.opaqueMethod(rv, fn, call)
+	case *LocalVec:
+		return it.localVecMethod(rv, name, call)
 	}
 	it.undecided(pos, "method %s on %T", name, recvV)
 	return nil
@@ -1283,6 +1384,9 @@ func (it *Interp) scalarMethod(recv *Loc, name string, fn *types.Func, call *ast
 	switch {
 	case strings.HasPrefix(name, "GetFloat") || strings.HasPrefix(name, "GetInt"):
 		if strings.HasPrefix(name, "GetInt") && !it.intType() {
+			if it.cfg.IntSyms[recv.Val.String()] {
+				return recv.Val
+			}
 			return sym.Fn("trunc", recv.Val)
 		}
 		return recv.Val
@@ -1295,6 +1399,10 @@ func (it *Interp) scalarMethod(recv *Loc, name string, fn *types.Func, call *ast
 		return sym.Fn("nvars", sym.Sym(recv.Name))
 	case name == "Type":
 		return sym.Sym("type(" + recv.Name + ")")
+	case strings.HasPrefix(name, "Clone") && len(call.Args) == 0:
+		l := it.newLoc("tmp", recv.Val)
+		l.Consistent = recv.Consistent
+		return l
 	case name == "Equals" || name == "EQUALS":
 		if len(call.Args) >= 1 {
 			if o, ok := it.eval(call.Args[0]).(*Loc); ok {
@@ -1531,7 +1639,11 @@ func (it *Interp) inlineMethod(recv *Loc, name string, call *ast.CallExpr) Value
 func (it *Interp) forStmt(x *ast.ForStmt) {
 	pos := x.Pos()
 	it.env = append(it.env, map[types.Object]Value{})
-	defer func() { it.env = it.env[:len(it.env)-1] }()
+	defer func() {
+		if len(it.env) > 0 {
+			it.env = it.env[:len(it.env)-1]
+		}
+	}()
 	var lo, hi *sym.Term // inclusive bounds
 	bname := []string{"$j", "$k", "$l", "$m"}[it.loopDepth%4]
 	bound := sym.Sym(bname)
